@@ -164,7 +164,7 @@ func (c *Ctx) errPropagatedSentinel(call ssa.CallInstruction) (bool, string) {
 			nonNil = b.Succs[1]
 		}
 		isRetOfE := func(i ssa.Instruction) bool { return returnsErr(e, i) }
-		q := PathQuery{StartBlock: nonNil, StartPred: b, NonNil: map[ssa.Value]bool{e: true}, Cut: isRetOfE, Goal: IsReturn, Prune: func(from, to *ssa.BasicBlock) bool {
+		q := PathQuery{StartBlock: nonNil, StartPred: b, NonNil: map[ssa.Value]bool{e: true, rel.X: true}, Cut: isRetOfE, Goal: IsReturn, Prune: func(from, to *ssa.BasicBlock) bool {
 			f, ok := EdgeFact(from, to)
 			if !ok {
 				return false
